@@ -44,8 +44,9 @@ NOT_DECIDED = [
     "reference values of perfect fcc/bcc/hcp/sc/icosahedral environments (instances, not a for-all statement); rotation invariance (C07)",
     "values of the Wigner 3-j symbols (sympy); w_l for degrees other than l = 2, 3, 4, 6 (w_W_cap is proved for these concrete degrees: the "
     "loop over the (2l+1)^3 index triples of Wignerindex is executed, not summarised; for l = 8, 10, 12 the loop-step goals over the "
-    "resulting polynomials (hundreds of cubic terms) exceed the quick-tier solver budget; the replay runs l = 2, 4); file layout of "
-    "outputsij (np.savetxt with a format string built from max_neighbors) in sij_ql_Ql",
+    "resulting polynomials (hundreds of cubic terms) exceed the quick-tier solver budget; the replay runs l = 2, 4); the characters "
+    "np.savetxt produces for the outputsij file (proved: the written array is the returned one, header 'id CN sij', comments '', format = "
+    "'%d %d ' + maxcn times '%.6f ', one format per column; the rendering of a number by a format is numpy's)",
     "float32 storage of s_ij (A1: floats are reals; the replay compares s_ij with tolerance 2e-6); NaN for particles without neighbour "
     "or with zero weight sum (excluded by the property's quantifier: every particle has >= 1 neighbour, positive weights); bin membership "
     "of pair distances within one ulp of a bin edge (C13); a time correlation whose lag-zero value is exactly 0 (precondition, as in C14)",
@@ -76,6 +77,11 @@ TRUSTED = [
     "invariant of the spatial_corr frame loop by init / step obligations generated from executions of the real body",
     "solver accelerator used for w_W_cap: nonlinear products as uninterpreted functions (pyvc/solve.py _try_uf_abstraction; an unsat of the "
     "abstraction is an unsat of the original)",
+    "pyvc/libext/C09.py: str * n for a symbolic integer n and concatenation of such strings (RepStr: literal pieces with repetition counts); "
+    "np.savetxt(path, X, fmt=<multi-format string>) requires one % format per column (side obligation) and is a write event; int(x) of a real "
+    "that is syntactically a float copy of an integer is that integer; np.concatenate(axis=0) of a symbolic list of (n, c) items: row r is row "
+    "r - q n of item q, q the Euclidean quotient of r by n (uninterpreted EUCLID_QUOT with the axiom 0 <= r - q n < n, n > 0); ndarray.max over "
+    "a symbolic axis: attained at a witness index, upper bound of every element (instantiated at row n*N+i in the clause maxcn:bounds)",
     "sum_{j<cn} a = cn a and linearity of finite sums in the lemmas (equal weights, q_l bound); induction over the frames in lemma eq(8)",
 ]
 
@@ -296,6 +302,7 @@ def _close(a, b, rel=1e-9, abs_=1e-11):
 
 def _replay_boo(what, case, clause, model, seed):
     import importlib
+    import os
     import shutil
     import tempfile
     import numpy as np
@@ -329,7 +336,12 @@ def _replay_boo(what, case, clause, model, seed):
                 return {"ran": True, "failed": True, "inputs": info, "detail": f"boo_3d(...) raises {type(e).__name__}: {e}", "searched": tried}
             q, Q = _ref_fields(sy)
             tried += 1
-            bad = _check_method(B, obj, what, case, sy, q, Q, tmpdir, rng)
+            try:
+                bad = _check_method(B, obj, what, case, sy, q, Q, tmpdir, rng)
+            except Exception as e:      # the methods under contract have no specified raising path
+                import traceback
+                where = traceback.extract_tb(e.__traceback__)[-1]
+                bad = f"{what} raises {type(e).__name__}: {e} (at {os.path.basename(where.filename)}:{where.lineno})"
             if bad:
                 return {"ran": True, "failed": True, "inputs": info, "detail": bad, "searched": tried, "from_model": False}
         return {"ran": True, "failed": False, "searched": tried}
@@ -379,20 +391,43 @@ def _check_method(B, obj, what, case, sy, q, Q, tmpdir, rng):
                     return "saved text file differs from the returned array"
         return None
     if what == "sij_ql_Ql":
-        csv = os.path.join(tmpdir, "sum_sij.csv") if case.endswith("csv") else None
+        kind = case.split("/")[1]
+        csv = os.path.join(tmpdir, "sum_sij.csv") if "csv" in kind else None
+        sijfile = os.path.join(tmpdir, "sij_ql.dat") if "sij" in kind else None
+        maxcn = max(len(sy["nbs"][s_][i][:Nmax]) for s_ in range(T) for i in range(N))
         first = obj.sij_ql_Ql(coarse_graining=cg, c=0.7, outputqlQl=None, outputsij=None)
         tie = float(np.asarray(first[0])[0, 2]) if isinstance(first, list) and len(first) and np.asarray(first[0]).shape[1] > 2 else 0.3
         # thresholds: the default, a positive and a negative one, and one equal to a stored s_ij (a tie: '>' must not count it)
         for c in (0.7, float(rng.uniform(0.0, 0.9)), float(rng.uniform(-0.9, -0.05)), tie):
-            got = obj.sij_ql_Ql(coarse_graining=cg, c=c, outputqlQl=csv, outputsij=None)
+            got = obj.sij_ql_Ql(coarse_graining=cg, c=c, outputqlQl=csv, outputsij=sijfile)
+            width = Nmax
+            if sijfile:
+                # with outputsij the frames are stacked and cut to 2 + (largest coordination number) columns; that table is returned and written
+                stacked = np.asarray(got)
+                if stacked.ndim != 2 or stacked.shape != (T * N, 2 + maxcn):
+                    return f"with outputsij: returned array of shape {stacked.shape}, expected (T*N, 2 + max cn) = {(T * N, 2 + maxcn)}"
+                width = maxcn
+                if not os.path.exists(sijfile):
+                    return "outputsij given but no file written"
+                with open(sijfile) as fh:
+                    lines = fh.read().splitlines()
+                if lines[0] != "id CN sij" or len(lines) != 1 + T * N:
+                    return f"outputsij file: first line {lines[0]!r}, {len(lines)} lines; expected the header 'id CN sij' and {T * N} rows"
+                for r_, line in enumerate(lines[1:]):
+                    tok = line.split()
+                    ok_ = len(tok) == 2 + maxcn and tok[0].lstrip("-").isdigit() and tok[1].isdigit() and all("." in x and len(x.split(".")[1]) == 6 for x in tok[2:])
+                    if not ok_ or int(tok[0]) != int(stacked[r_, 0]) or int(tok[1]) != int(stacked[r_, 1]) \
+                            or np.any(np.abs(np.array([float(x) for x in tok[2:]]) - stacked[r_, 2:]) > 1e-6):
+                        return f"outputsij file, row {r_}: {line!r} is not 'id cn' as integers followed by the {maxcn} returned s_ij with six decimals ({stacked[r_].tolist()})"
+                got = [stacked[s_ * N:(s_ + 1) * N] for s_ in range(T)]
             if not isinstance(got, list) or len(got) != T:
                 return f"returned {type(got).__name__} of length {len(got) if hasattr(got, '__len__') else '?'}; expected a list with one array per frame ({T})"
             counts = np.zeros((T, N), dtype=int)
             near = np.zeros((T, N), dtype=bool)
             for s_ in range(T):
                 a = np.asarray(got[s_])
-                if a.shape != (N, 2 + Nmax):
-                    return f"frame {s_}: array of shape {a.shape}, expected {(N, 2 + Nmax)}"
+                if a.shape != (N, 2 + width):
+                    return f"frame {s_}: array of shape {a.shape}, expected {(N, 2 + width)}"
                 for i in range(N):
                     nb_ = sy["nbs"][s_][i][:Nmax]
                     if a[i, 0] != i + 1 or a[i, 1] != len(nb_):
@@ -711,8 +746,10 @@ def sij_spec(q, M, n, i, j):
 
 class Sij(Unit):
     loop_opts = {"cond_acc": "guarded-first"}      # guarded accumulations: guard hoisted out of the sum / Kronecker collapse
-    """boo_3d.sij_ql_Ql(coarse_graining, c, outputqlQl, outputsij=None): per frame the array [id, cn, s_i0, .., s_i,Nmax-1] with
-    s_ij = eq. (5) for the cn_i neighbours and 0 beyond; the csv frame holds id, #{j < cn_i : s_ij > c}, cn_i for every frame"""
+    """boo_3d.sij_ql_Ql(coarse_graining, c, outputqlQl, outputsij): per frame the array [id, cn, s_i0, .., s_i,Nmax-1] with
+    s_ij = eq. (5) for the cn_i neighbours and 0 beyond; the csv frame holds id, #{j < cn_i : s_ij > c}, cn_i for every frame.
+    With outputsij the frames are stacked (row n*N + i), cut to 2 + maxcn columns (maxcn = the largest coordination number of the
+    trajectory) and written by np.savetxt with header 'id CN sij' and one format per column ('%d %d ' + maxcn * '%.6f '); that array is returned."""
     module = MOD
     qualname = f"{CLS}.sij_ql_Ql"
     prop = "C09"
@@ -727,7 +764,7 @@ class Sij(Unit):
         return self._summ
 
     def cases(self):
-        return [f"{cg}/{of}" for cg in ("local", "coarse") for of in ("nofile", "csv")]
+        return [f"{cg}/{of}" for cg in ("local", "coarse") for of in ("nofile", "csv")] + ["local/sij", "coarse/csv+sij"]
 
     def setup(self, ctx, case):
         from pyvc.libext.C09 import install_open
@@ -744,56 +781,124 @@ class Sij(Unit):
         ctx.interp.summaries = dict(self._summ)
         c = ctx.real("c")
         o, small, large, M = _boo_self(ctx, l, T, N, dict(snapshots=tr.snapshots(), neighborfile=NEIGHBORFILE, Nmax=Nmax))
-        csv = "sum_sij.csv" if of == "csv" else None
-        inp = dict(T=T, N=N, l=l, M=M, Nmax=Nmax, c=c, q=large if cg == "coarse" else small, csv=csv,
+        csv = "sum_sij.csv" if "csv" in of else None
+        sijfile = "sij_ql.dat" if "sij" in of else None
+        inp = dict(T=T, N=N, l=l, M=M, Nmax=Nmax, c=c, q=large if cg == "coarse" else small, csv=csv, sijfile=sijfile,
                    n=ctx.int("n"), i=ctx.int("i"), j=ctx.int("j"))
-        return [o], dict(coarse_graining=(cg == "coarse"), c=c, outputqlQl=csv, outputsij=None), inp
+        return [o], dict(coarse_graining=(cg == "coarse"), c=c, outputqlQl=csv, outputsij=sijfile), inp
 
     def clause_names(self, case):
-        names = ["returns-one-(N,2+Nmax)-array-per-frame", "column0=id", "column1=cn", "s_ij=Re(q_i.conj(q_j))/(|q_i||q_j|)", "padding=0"]
-        if case.endswith("csv"):
-            names += ["csv:columns-and-length", "csv:id", "csv:count=#{j<cn:s_ij>c}", "csv:num_neighbors=cn"]
+        of = case.split("/")[1]
+        if "sij" in of:
+            names = ["returns-the-stacked-(T*N,2+maxcn)-array", "stacked-table:row(n*N+i)=row-i-of-frame-n", "maxcn:attained-at-a-row-of-the-returned-array", "maxcn:bounds-every-coordination-number", "maxcn<=Nmax"]
         else:
+            names = ["returns-one-(N,2+Nmax)-array-per-frame"]
+        names += ["column0=id", "column1=cn", "s_ij=Re(q_i.conj(q_j))/(|q_i||q_j|)", "padding=0"]
+        if "csv" in of:
+            names += ["csv:columns-and-length", "csv:id", "csv:count=#{j<cn:s_ij>c}", "csv:num_neighbors=cn"]
+        if "sij" in of:
+            names += ["sijfile:np.savetxt(returned-array,header='id CN sij',one-format-per-column)"]
+        if of == "nofile":
             names += ["no-file-written"]
         return names
 
     def ensures(self, ctx, case, inp, out):
         from pyvc.interp import Ref
-        from pyvc.pandas_model import df_content
+        from pyvc.libext.C09 import RepStr
         res = out.value
         T, N, M, Nmax, n, i, j, q, c = (inp[x] for x in ("T", "N", "M", "Nmax", "n", "i", "j", "q", "c"))
-        ok = isinstance(res, Ref) and res.kind == "list" and isinstance(res.content, A.SeqVal) and A.dim_eq_syntactic(res.content.length, T)
-        item = res.content.fn(n) if ok else None
-        ok = ok and isinstance(item, A.Arr) and item.ndim == 2 and A.dim_eq_syntactic(item.shape[0], N) \
-            and A.dim_eq_syntactic(item.shape[1], A.simp(sv.add(2, Nmax)))
-        yield "returns-one-(N,2+Nmax)-array-per-frame", bool(ok)
-        if not ok:
-            return
         inr = sv.and_(sv.cmp(">=", n, 0), sv.cmp("<", n, T), sv.cmp(">=", i, 0), sv.cmp("<", i, N))
         cn = nb(n, i, 0)
-        yield "column0=id", sv.implies(inr, sv.cmp("==", item.get((i, 0)), sv.add(i, 1)))
-        yield "column1=cn", sv.implies(inr, sv.cmp("==", item.get((i, 1)), cn))
-        got = item.get((i, A.simp(sv.add(2, j))))
+        row = A.simp(sv.add(sv.mul(n, N), i))          # row of (frame n, particle i) in a table stacked over the frames
+        extra = []
+        if inp["sijfile"] is None:
+            ok = isinstance(res, Ref) and res.kind == "list" and isinstance(res.content, A.SeqVal) and A.dim_eq_syntactic(res.content.length, T)
+            item = res.content.fn(n) if ok else None
+            ok = ok and isinstance(item, A.Arr) and item.ndim == 2 and A.dim_eq_syntactic(item.shape[0], N) \
+                and A.dim_eq_syntactic(item.shape[1], A.simp(sv.add(2, Nmax)))
+            yield "returns-one-(N,2+Nmax)-array-per-frame", bool(ok)
+            if not ok:
+                return
+            width = Nmax
+
+            def cell(col):
+                return item.get((i, col))
+        else:
+            ok = isinstance(res, A.Arr) and res.ndim == 2 and A.dim_eq_syntactic(res.shape[0], A.simp(sv.mul(T, N)))
+            mxq = [f for f in out.state.qfacts if f[0] == "max"]
+            ok = ok and len(mxq) == 1
+            yield "returns-the-stacked-(T*N,2+maxcn)-array", bool(ok)
+            if not ok:
+                return
+            _, nrows, colreader, Mx, w = mxq[0][:5]
+            width = A.simp(sv.sub(res.shape[1], 2))       # maxcn: number of s_ij columns kept
+            # assumed contract of ndarray.max (attained at a row w, upper bound of every element): the bound instantiated at row n*N+i
+            bound = sv.implies(inr, sv.cmp("<=", colreader((row,)), Mx))
+            extra = [bound]
+            # (linear arithmetic + congruence: the products N*T, N*quotient are kept as uninterpreted terms)
+            yield "maxcn:attained-at-a-row-of-the-returned-array", sv.and_(sv.cmp(">=", w, 0), sv.cmp("<", w, sv.mul(T, N)), sv.cmp("==", res.get((w, 1)), width)), \
+                {"solver_opts": dict(self.solver_opts, uf_abstraction=True)}
+            yield "maxcn:bounds-every-coordination-number", sv.implies(inr, sv.cmp("<=", cn, width)), {"assume": extra}
+            yield "maxcn<=Nmax", sv.cmp("<=", width, Nmax)
+
+            # row n*N + i of the stacked table is row i of frame n's table when 0 <= i < N (the model of np.concatenate reads any other row
+            # through the Euclidean quotient of the row index: that alternative is cut off here — under `inr` its guard is true — and the
+            # cut is its own obligation, stated at an arbitrary column)
+            okz = sv.zb(sv.and_(sv.cmp(">=", i, 0), sv.cmp("<", i, N)))
+
+            def cut(v):
+                v = sv.norm(v)
+                if isinstance(v, sv.Cx):
+                    return sv.Cx(cut(v.re), cut(v.im))
+                return sv.wrap(z3.simplify(z3.substitute(v.t, (okz, z3.BoolVal(True))))) if isinstance(v, sv.SV) else v
+
+            def cell(col):
+                return cut(res.get((row, col)))
+            colv = sv.fresh_int("anycol")
+            yield ("stacked-table:row(n*N+i)=row-i-of-frame-n", sv.implies(sv.and_(inr, sv.cmp(">=", colv, 0), sv.cmp("<", colv, res.shape[1])),
+                                                                         sv.cmp("==", res.get((row, colv)), cell(colv))), {"solver_opts": {"unfold": False, "ext": False, "rounds": 1}})
+        yield "column0=id", sv.implies(inr, sv.cmp("==", cell(0), sv.add(i, 1))), {"assume": extra}
+        yield "column1=cn", sv.implies(inr, sv.cmp("==", cell(1), cn)), {"assume": extra}
+        got = cell(A.simp(sv.add(2, j)))
         want = sij_spec(q, M, n, i, nb(n, i, A.simp(sv.add(1, j))), )
-        yield "s_ij=Re(q_i.conj(q_j))/(|q_i||q_j|)", sv.implies(sv.and_(inr, sv.cmp(">=", j, 0), sv.cmp("<", j, cn)), sv.cmp("==", got, want))
-        yield "padding=0", sv.implies(sv.and_(inr, sv.cmp(">=", j, cn), sv.cmp("<", j, Nmax)), sv.cmp("==", got, 0))
-        writes = [e for e in out.state.trace if e[0] in ("to_csv", "np.savetxt", "np.save")]
-        if inp["csv"] is None:
-            yield "no-file-written", len(writes) == 0
-            return
-        good = len(writes) == 1 and writes[0][0] == "to_csv" and writes[0][1] == inp["csv"] and writes[0][3] == ["id", "sum_sij", "num_neighbors"]
-        yield "csv:columns-and-length", bool(good)
-        if not good:
-            return
-        cols = writes[0][2]
-        # row r of the file = frame r div N, particle r mod N: stated at row n*N + i
-        r = sv.add(sv.mul(n, N), i)
-        nrows_ok = A.dim_eq_syntactic(A.simp(cols["id"].shape[0]), A.simp(sv.mul(T, N)))
-        yield "csv:id", sv.and_(nrows_ok, sv.implies(inr, sv.cmp("==", cols["id"].get((r,)), sv.add(i, 1))))
-        # the count is taken over the returned s_ij of the cn_i bonds (whose values are fixed by the clause above)
-        cnt = Sum(0, cn, lambda jj: sv.ite(sv.cmp(">", item.get((i, A.simp(sv.add(2, jj)))), c), 1, 0))
-        yield "csv:count=#{j<cn:s_ij>c}", sv.implies(inr, sv.cmp("==", cols["sum_sij"].get((r,)), cnt)), {"solver_opts": {"rounds": 3, "ext_tail": True}}
-        yield "csv:num_neighbors=cn", sv.implies(inr, sv.cmp("==", cols["num_neighbors"].get((r,)), cn))
+        yield "s_ij=Re(q_i.conj(q_j))/(|q_i||q_j|)", sv.implies(sv.and_(inr, sv.cmp(">=", j, 0), sv.cmp("<", j, cn)), sv.cmp("==", got, want)), {"assume": extra}
+        yield "padding=0", sv.implies(sv.and_(inr, sv.cmp(">=", j, cn), sv.cmp("<", j, width)), sv.cmp("==", got, 0)), {"assume": extra}
+        csvw = [e for e in out.state.trace if e[0] == "to_csv"]
+        txtw = [e for e in out.state.trace if e[0] in ("np.savetxt", "np.save")]
+        if inp["csv"] is None and inp["sijfile"] is None:
+            yield "no-file-written", len(csvw) + len(txtw) == 0
+        if inp["csv"] is not None:
+            good = len(csvw) == 1 and csvw[0][1] == inp["csv"] and csvw[0][3] == ["id", "sum_sij", "num_neighbors"]
+            yield "csv:columns-and-length", bool(good)
+            if good:
+                cols = csvw[0][2]
+                # row r of the file = frame r div N, particle r mod N: stated at row n*N + i
+                nrows_ok = A.dim_eq_syntactic(A.simp(cols["id"].shape[0]), A.simp(sv.mul(T, N)))
+                yield "csv:id", sv.and_(nrows_ok, sv.implies(inr, sv.cmp("==", cols["id"].get((row,)), sv.add(i, 1))))
+                # the count is taken over the returned s_ij of the cn_i bonds (whose values are fixed by the clause above)
+                cnt = Sum(0, cn, lambda jj: sv.ite(sv.cmp(">", cell(A.simp(sv.add(2, jj))), c), 1, 0))
+                yield "csv:count=#{j<cn:s_ij>c}", sv.implies(inr, sv.cmp("==", cols["sum_sij"].get((row,)), cnt)), \
+                    {"solver_opts": {"rounds": 3, "ext_tail": True}, "assume": extra}
+                yield "csv:num_neighbors=cn", sv.implies(inr, sv.cmp("==", cols["num_neighbors"].get((row,)), cn))
+        elif csvw:
+            yield "no-file-written", False
+        if inp["sijfile"] is not None:
+            name = "sijfile:np.savetxt(returned-array,header='id CN sij',one-format-per-column)"
+            good = len(txtw) == 1 and txtw[0][0] == "np.savetxt" and txtw[0][1] == inp["sijfile"]
+            kw = txtw[0][3] if good else {}
+            fmt = kw.get("fmt")
+            # layout: the header line, then one line per row: two integers (id, cn) and maxcn numbers with six decimals
+            good = good and kw.get("header") == "id CN sij" and kw.get("comments") == "" and isinstance(fmt, RepStr) \
+                and len(fmt.parts) == 2 and fmt.parts[0] == ("%d %d ", 1) and fmt.parts[1][0] == "%.6f "
+            arr = txtw[0][2] if good else None
+            good = good and isinstance(arr, A.Arr) and arr.ndim == 2 and A.dim_eq_syntactic(arr.shape[0], res.shape[0]) and A.dim_eq_syntactic(arr.shape[1], res.shape[1])
+            if not good:
+                yield name, False
+            else:
+                col = sv.fresh_int("col")
+                yield name, sv.and_(sv.cmp("==", fmt.parts[1][1], width),
+                                    sv.implies(sv.and_(inr, sv.cmp(">=", col, 0), sv.cmp("<", col, res.shape[1])),
+                                               sv.cmp("==", arr.get((row, col)), res.get((row, col))))), {"assume": extra}
 
     def raises(self, ctx, case, inp, out):
         return None      # cn_i <= Nmax is guaranteed by read_neighbors: the ValueError branch must be unreachable
@@ -1329,7 +1434,10 @@ MANIFEST = {
             "cn_i weights), frame k of both files is used for snapshot k, Q_lm = (q_i + sum_j q_j)/(1+cn_i) over the returned q; index "
             "bounds and loop summaries of the three nested loops; ql_Ql = sqrt(4 pi/(2l+1) sum_m |q_lm|^2) >= 0 for both fields, saved "
             "file = returned array; sij_ql_Ql returns per frame [id, cn, s_ij (j < cn), 0 padding] with s_ij = Re(q_i.conj q_j)/(|q_i||q_j|), "
-            "the csv frame holds id, #{j < cn_i : s_ij > c}, cn_i at row n*N+i, the ValueError branch is unreachable; w_l and w^_l (eq. 6, 7) "
+            "the csv frame holds id, #{j < cn_i : s_ij > c}, cn_i at row n*N+i, the ValueError branch is unreachable; with outputsij the returned "
+            "array is the frames stacked (row n*N+i) and cut to 2 + maxcn columns, maxcn the largest coordination number (attained, bounds "
+            "every cn_i, <= Nmax), and np.savetxt receives that array with header 'id CN sij' and the format '%d %d ' + maxcn * '%.6f ' (one "
+            "format per column); w_l and w^_l (eq. 6, 7) "
             "with Wignerindex executed from its body; spatial_corr (both fields, with / without csv): every call of conditional_gr passes the "
             "snapshot of frame n, the q_lm (Q_lm) rows of the same frame, conditiontype 'vector', the object's ppp and the rdelta argument and "
             "meets the callee's preconditions (named clause), the frame loop satisfies the written invariant glresults(k) = sum_{t<k} "
